@@ -58,3 +58,7 @@ package erpc
 //@ func init$ctxPool.New
 //@   property C20
 //@   ensures[pool-new] istype(result, type(*handlerCtx)) && ctxShape(as(result, type(*handlerCtx)))
+
+// ---- C15: framework statuses are immutable ---------------------------------
+//@ func NewStatusByCodeText
+//@   property C15
